@@ -1,6 +1,6 @@
 (* C18 -- coarse-grained stress tensor: symmetric, linear, isotropic for pure pressure.  Statements only.
    The tensor of a grid cell is reported as [[xx, xy], [xy, yy]] (symmetric by construction of the model's triple). *)
-From Coq Require Import List Reals.
+From Coq Require Import List Reals ZArith QArith.
 From Coq Require Import Permutation.
 From Forsys Require Import Model.Num Model.Stress Proofs.StressProofs Model.StressGrid Proofs.StressGridProofs.
 Import ListNotations.
@@ -60,6 +60,14 @@ Theorem C18_bins_uniform : forall lo hi g, (0 < g)%nat ->
 Proof. intros lo hi g Hg. exact (conj (bin_edges_uniform lo hi g Hg) (bin_centres_uniform lo hi g Hg)). Qed.
 Theorem C18_grid_centres_inside : forall lo hi g c, (0 < g)%nat -> (lo < hi)%R -> In c (bin_centres ROps (bin_edges ROps lo hi g)) -> (lo < c < hi)%R.
 Proof. exact bin_centres_inside. Qed.
+
+(* non-vacuity: five bins on [0, 10], a centre at (5, 5) with squared radius 4 selects cells 7 and 9, and with them the interfaces touching them *)
+Example C18_grid_example :
+  map Qred (bin_edges QOps 0%Q 10%Q 5) = [0; 2; 4; 6; 8; 10]%Q /\ 
+  map Qred (bin_centres QOps (bin_edges QOps 0%Q 10%Q 5)) = [1; 3; 5; 7; 9]%Q /\
+  map (fun c => fst (fst c)) (select_cells QOps 4%Q 5%Q 5%Q [(7%Z, (4, 4), (1, 1)); (8%Z, (9, 9), (1, 1)); (9%Z, (5, 7), (1, 1))]%Q) = [7%Z; 9%Z] /\
+  map fst (select_edges [7%Z; 9%Z] [((7, 8)%Z, (1, (1, 0, 1))); ((8, -1)%Z, (1, (1, 0, 1))); ((3, 9)%Z, (1, (1, 0, 1)))]%Q) = [(7, 8)%Z; (3, 9)%Z].
+Proof. vm_compute. repeat split. Qed.
 
 Print Assumptions C18_sigma_zero_when_empty.
 Print Assumptions C18_sigma_zero_area.
